@@ -108,7 +108,9 @@ func main() {
 		os.Exit(2)
 	}
 	if *replayFile != "" {
-		os.Exit(replayOnly(*prop, *tier, files, *replayFile))
+		rc := replayOnly(*prop, *tier, files, *replayFile)
+		cleanupModfiles()
+		os.Exit(rc)
 	}
 	var onlyRe *regexp.Regexp
 	if *only != "" {
@@ -160,7 +162,9 @@ func main() {
 		wg.Wait()
 	}
 	sort.Slice(results, func(i, j int) bool { return results[i].Entry < results[j].Entry })
-	os.Exit(finish(*prop, *tier, seed, files, results, loadS, t0, *noReplay))
+	rc := finish(*prop, *tier, seed, files, results, loadS, t0, *noReplay)
+	cleanupModfiles()
+	os.Exit(rc)
 }
 
 func flagSet(name string) bool {
@@ -295,6 +299,46 @@ func rtSource(pkgName string) []byte {
 	return []byte(strings.Replace(string(b), "package PKGNAME", "package "+pkgName, 1))
 }
 
+// modfileFlag: every go command this tool runs in a module of /repo works on a private copy of that module's
+// go.mod/go.sum (-modfile), so that -mod=mod can never rewrite the files of /repo (it would, e.g., when a generated
+// hook file imports a package that go.mod lists as indirect).
+var (
+	modfileMu   sync.Mutex
+	modfileDir  string
+	modfileDone = map[string]string{}
+)
+
+func modfileFlag(moduleDir string) string {
+	modfileMu.Lock()
+	defer modfileMu.Unlock()
+	if f, ok := modfileDone[moduleDir]; ok {
+		return f
+	}
+	if modfileDir == "" {
+		d, err := os.MkdirTemp("", "gosym-modfile-")
+		if err != nil {
+			panic(err)
+		}
+		modfileDir = d
+	}
+	sub := filepath.Join(modfileDir, fmt.Sprintf("m%d", len(modfileDone)))
+	os.MkdirAll(sub, 0755)
+	for _, n := range []string{"go.mod", "go.sum"} {
+		if b, err := os.ReadFile(filepath.Join(moduleDir, n)); err == nil {
+			os.WriteFile(filepath.Join(sub, n), b, 0644)
+		}
+	}
+	f := "-modfile=" + filepath.Join(sub, "go.mod")
+	modfileDone[moduleDir] = f
+	return f
+}
+
+func cleanupModfiles() {
+	if modfileDir != "" {
+		os.RemoveAll(modfileDir)
+	}
+}
+
 func goEnv() []string {
 	env := os.Environ()
 	env = append(env, "GOFLAGS=-mod=mod", "GOPROXY=off", "GOSUMDB=off", "GOTOOLCHAIN=local", "CGO_ENABLED=0")
@@ -334,7 +378,7 @@ func loadProgram(module string, files []*harnessFile) (*ssa.Program, map[string]
 	cfg := &packages.Config{
 		Mode:       packages.LoadAllSyntax | packages.NeedModule,
 		Dir:        filepath.Join(repoRoot, module),
-		BuildFlags: []string{"-tags=verif"},
+		BuildFlags: []string{"-tags=verif", modfileFlag(filepath.Join(repoRoot, module))},
 		Env:        goEnv(),
 		Overlay:    overlay,
 	}
@@ -614,7 +658,7 @@ func runNative(files []*harnessFile, pkgDir, module, tier string, engineReplaces
 	cb, _ := json.Marshal(cases)
 	os.WriteFile(cf, cb, 0644)
 	rf := filepath.Join(tmp, "results.json")
-	cmd := exec.Command("go", "test", "-tags", "verif", "-vet=off", "-count=1", "-timeout", "10m", "-overlay", ovf, "-run", "^TestVerifReplay$", "./"+pkgDir)
+	cmd := exec.Command("go", "test", modfileFlag(filepath.Join(repoRoot, module)), "-tags", "verif", "-vet=off", "-count=1", "-timeout", "10m", "-overlay", ovf, "-run", "^TestVerifReplay$", "./"+pkgDir)
 	cmd.Dir = filepath.Join(repoRoot, module)
 	cmd.Env = append(goEnv(), "VERIF_CASES="+cf, "VERIF_RESULTS="+rf, "VERIF_TIER="+tier)
 	out, err := cmd.CombinedOutput()
